@@ -28,16 +28,24 @@ def configs(tier: str):
                             # `errors` is irrelevant on finite data; cross it sparsely
                             errs = ('raise', 'skip', 'ignore', 'replace') if (t in (1, -1) and N == 1) else ('raise',)
                             for errors in errs:
-                                entry = 'solve_period' if (t >= 0 and offset == 'zero' and cfe) else 'solve_t'
                                 if tier == 'quick' and B == B_max and N == 2 and t not in (0, 1, -1):
                                     continue
-                                out.append(default_cfg(N=N, B=B, errors=errors, failures=failures, cfe=cfe, t=t,
-                                                       offset=offset, finite=True, faults=False, hook_faults=False,
-                                                       entry=entry, witness_rate=0.02 if tier == 'quick' else 0.1))
-                                if entry == 'solve_period':
-                                    c2 = dict(out[-1])
-                                    c2['entry'] = 'solve_t'
-                                    out.append(c2)
+                                base = default_cfg(N=N, B=B, errors=errors, failures=failures, cfe=cfe, t=t,
+                                                   offset=offset, finite=True, faults=False, hook_faults=False,
+                                                   entry='solve_t', witness_rate=0.02 if tier == 'quick' else 0.1)
+                                out.append(base)
+                                # solve_period(label) must reduce to solve_t(position) with every option passed through
+                                if t >= 0 and (N == 1 or offset == 'zero'):
+                                    out.append(dict(base, entry='solve_period'))
+    # finite data does not exclude warnings (e.g. raised while computing a non-check variable): symbolic fault kinds
+    # with finite values exercise catch_first_error / errors on both entry points
+    for entry in ('solve_t', 'solve_period'):
+        for errors in ('raise', 'ignore'):
+            for cfe in (True, False):
+                for failures in ('raise', 'ignore'):
+                    for B in (1, 2):
+                        out.append(default_cfg(N=1, B=B, errors=errors, failures=failures, cfe=cfe, t=1, offset='zero', finite=True,
+                                               faults=True, hook_faults=(B == 1), entry=entry))
     return out
 
 
